@@ -238,6 +238,8 @@ class Exec:
         raise Unsupported('name %s' % name)
 
     def import_target(self, dotted):
+        if dotted == 'fractions.Fraction':
+            return SExcClass('Fraction')
         r = self.repo.resolve(dotted)
         if isinstance(r, ClassInfo):
             return SClass(r)
